@@ -11,14 +11,27 @@ EXTENDS DB, Json, IOUtils
 Trace  == ndJsonDeserialize(IOEnv.VERIF_TRACE)
 Bounds == ndJsonDeserialize(IOEnv.VERIF_BOUNDS)
 
-VARIABLES tr, l, viol
-tvars == << vars, tr, l, viol >>
+\* kfl: pairs << table, revision >> such that a transaction holding a rejected compare-and-* operation on the
+\* table was committed while the table was at that revision (known finding L: that commit closes channels of the
+\* table although no newer revision becomes visible)
+VARIABLES tr, l, viol, kfl
+tvars == << vars, tr, l, viol, kfl >>
 NoViol == [l |-> 0, inv |-> "ok", exp |-> ""]
 
 TInit ==
     /\ Init
     /\ \E t \in 1..Len(Bounds) : tr = t /\ l = Bounds[t].s
     /\ viol = NoViol
+    /\ kfl = {}
+
+KflNext ==
+    kfl' = IF "rejected" \in DOMAIN res' /\ (res'.op \in {"commit", "publish"} \/ (res'.op = "step" /\ res'.what = "publish"))
+           THEN kfl \cup { << t, root'[t].rev >> : t \in res'.rejected \cap DOMAIN root' }
+           ELSE kfl
+
+\* a channel handed out already closed although no newer revision is visible
+FreshBad(c) ==
+    IF << chan'[c].t, chan'[c].rev0 >> \in kfl /\ chan'[c].kind # "init" THEN "C06_FreshOpen_KF_RejectedCas" ELSE "C06_FreshOpen"
 
 Stutter(name) == res' = [op |-> name] /\ UNCHANGED << root, wtx, snap, chan, iter >>
 
@@ -55,7 +68,7 @@ MayCloseP(c) ==
 FirstEv(e) == Trace[Bounds[tr].s + e.first - 1]
 
 QueryBad(e) ==
-    IF e.w # 0 /\ e.wc /\ ~MayCloseP(e.w) THEN "C06_FreshOpen"
+    IF e.w # 0 /\ e.wc /\ ~MayCloseP(e.w) THEN FreshBad(e.w)
     ELSE IF e.first > 0 THEN
         LET f == FirstEv(e) IN
         IF ~(f.op = "query" /\ f.src = e.src /\ f.t = e.t /\ f.index = e.index /\ f.q = e.q /\ f.key = e.key)
@@ -85,7 +98,7 @@ WriteBad(e) ==
     THEN \* known deviation N: guard revision 0 means "no guard" internally
          IF e.op \in {"cas", "cad"} /\ e.guard = 0 /\ e.err = "" THEN "C03_Result_KF_ZeroGuard" ELSE "C03_Result"
     ELSE IF e.had /\ (e.old[1] # res'.old[1] \/ e.old[2] # res'.old[2]) THEN "C03_Result"
-    ELSE IF e.w # 0 /\ e.wc /\ ~MayCloseP(e.w) THEN "C06_FreshOpen"
+    ELSE IF e.w # 0 /\ e.wc /\ ~MayCloseP(e.w) THEN FreshBad(e.w)
     ELSE "ok"
 
 ChansBad(e) ==
@@ -185,13 +198,13 @@ TStep ==
        /\ Apply(e)
        /\ viol' = IF viol.inv # "ok" THEN viol
                   ELSE LET b == Bad(e) IN IF b = "ok" THEN viol ELSE [l |-> l, inv |-> b, exp |-> ToString(res')]
-    /\ l' = l + 1 /\ tr' = tr /\ nops' = nops
+    /\ l' = l + 1 /\ tr' = tr /\ nops' = nops /\ KflNext
 
 TDone ==
     /\ l = Bounds[tr].e + 1
     /\ PrintT(<< "VERDICT", Bounds[tr].id, viol.l, viol.inv, viol.exp >>)
     /\ l' = l + 1
-    /\ UNCHANGED << vars, tr, viol >>
+    /\ UNCHANGED << vars, tr, viol, kfl >>
 
 TNext == TStep \/ TDone
 TSpec == TInit /\ [][TNext]_tvars
